@@ -6,6 +6,8 @@ sys.path.insert(0, os.path.join(V, "lib"))
 import runner
 
 NOT_APPLICABLE = {}
+# properties whose check has been validated on the current tree (others stay listed as pending)
+READY = open(os.path.join(V, "props", "READY")).read().split()
 PENDING_REASON = "check not built yet in this round (design in DESIGN.md section 5); no claim is made"
 
 checks, na = [], []
@@ -15,7 +17,7 @@ for pid in ids:
     if pid in NOT_APPLICABLE:
         na.append({"property_id": pid, "reason": NOT_APPLICABLE[pid]})
         continue
-    if not os.path.exists(path):
+    if not os.path.exists(path) or pid not in READY:
         na.append({"property_id": pid, "reason": PENDING_REASON})
         continue
     prop = runner.load_prop(pid)
